@@ -13,6 +13,7 @@ thread_local! {
     static CLOCK_JUMPS: Cell<u64> = const { Cell::new(0) };
     static POISON: Cell<u64> = const { Cell::new(0) };
     static POISONED_BYTES: Cell<u64> = const { Cell::new(0) };
+    static LISTINGS: Cell<u64> = const { Cell::new(0) };
 }
 
 pub fn set_seed(seed: Option<u64>) {
@@ -24,6 +25,7 @@ pub fn set_seed(seed: Option<u64>) {
         MONO_CALLS.with(|c| c.set(0));
         CLOCK_JUMPS.with(|c| c.set(0));
         POISONED_BYTES.with(|c| c.set(0));
+        LISTINGS.with(|c| c.set(0));
     }
 }
 
@@ -94,6 +96,23 @@ pub fn note_poisoned(n: usize) {
 /// bytes of fresh allocations filled on this thread so far (evidence)
 pub fn poisoned_bytes() -> u64 {
     POISONED_BYTES.with(|c| c.get())
+}
+
+/// What the order of a directory listing is derived from in this simulated process (0 outside one).
+pub fn listing_salt() -> u64 {
+    match SEED.try_with(|s| s.get()) {
+        Ok(Some(s)) => crate::rng::derive(s, "dir.listing", 0),
+        _ => 0,
+    }
+}
+
+pub fn note_listing() {
+    LISTINGS.with(|c| c.set(c.get() + 1));
+}
+
+/// directories listed by this simulated process so far (evidence)
+pub fn listings() -> u64 {
+    LISTINGS.with(|c| c.get())
 }
 
 pub fn calls() -> u64 {
